@@ -372,3 +372,28 @@ func genAdminProgram(r *rand.Rand) []bt.Op {
 	}
 	return prog
 }
+
+// genPrefixDropProgram: DropRowRange by prefix on a table whose keys sit on every side of the prefixes' boundaries:
+// prefixes ending in 0xff (whose "next key" needs a carry), consisting only of 0xff bytes (which have no successor),
+// and the keys right before / behind them. Each drop is followed by the read-back of the whole table (deterministic:
+// every program of this kind exercises every prefix once, in a seeded order).
+func genPrefixDropProgram(r *rand.Rand) []bt.Op {
+	keys := []string{"a", "a\xfe", "a\xff", "a\xff\x00", "a\xff\xff", "a\xffz", "b", "b\x00", "\xfe\xff", "\xfe\xffq", "\xff", "\xff\x00", "\xff\xff", "\xff\xff\xff"}
+	prefixes := []string{"a\xff", "a\xff\xff", "\xfe\xff", "\xff", "\xff\xff", "a", "b", "a\xfe"}
+	r.Shuffle(len(prefixes), func(a, b int) { prefixes[a], prefixes[b] = prefixes[b], prefixes[a] })
+	fill := func() bt.Op {
+		op := bt.Op{Ev: "MutateRows", T: btTable, Now: 5000}
+		for _, k := range keys {
+			op.Entries = append(op.Entries, bt.Entry{K: j.S(k), Muts: []bt.Mut{{M: "set", F: j.S("f"), Q: j.S("q"), Ts: 1000, V: j.S("v")}}})
+		}
+		return op
+	}
+	prog := []bt.Op{createOp(btTable), fill()}
+	for i, p := range prefixes {
+		prog = append(prog, bt.Op{Ev: "DropRowRange", T: btTable, HasPrefix: true, Prefix: j.S(p)})
+		if i%3 == 2 {
+			prog = append(prog, fill()) // restore what the drops removed
+		}
+	}
+	return prog
+}
